@@ -192,6 +192,32 @@ def sample_check(d, path):
     return len(got), bad
 
 
+def archive_case(d, counts, base):
+    """`symbol` on an ar archive: every member's table, one after the other, numbering continued."""
+    paths, exp_names, exp_idx = [], [], []
+    for k, n in enumerate(counts):
+        p = "%s-m%d.o" % (base, k)
+        syms = [g.Sym(b"m%d_%d" % (k, i), 0x10 + i, 1, 2, 1, 0, 0xfff1) for i in range(n)]
+        root = g.cu_root(b"m%d.c" % k, children=[g.Die("DW_TAG_variable", [g.Attr("DW_AT_name", "DW_FORM_string", b"v%d" % k)])])
+        g.ElfFile([g.Unit(root, 4)], syms, e_type=1, with_symtab=True).write(p)
+        paths.append(p)
+        exp_names += [b""] + [s_.name for s_ in syms]
+        exp_idx += list(range(n + 1))
+    ar = base + ".a"
+    if os.path.exists(ar):
+        os.unlink(ar)
+    subprocess.run(["ar", "rc", ar] + paths, check=True)
+    rs = d.batch(["open id=d1 path=" + drv.hx(ar), drv.run_cmd("symbol", i="d1", lim=10000), "close id=d1"])
+    bad = []
+    exp = ["SY:f1:%d:%s@%d" % (ix, drv.hx(nm), pos) for pos, (ix, nm) in enumerate(zip(exp_idx, exp_names))]
+    got = rs[1].results()
+    if rs[1].crash or got != exp:
+        bad.append(("archive", "archive with members of %r symbols: `symbol` yields %s" % (list(counts), dwbattery.summarize(got, exp))))
+    for p in paths + [ar]:
+        os.unlink(p)
+    return len(exp), bad
+
+
 def _worker(d, chunk, extra):
     os.makedirs(dwbattery.DWDIR, exist_ok=True)
     out = {"files": 0, "queries": 0, "results": 0, "bad": []}
@@ -201,6 +227,9 @@ def _worker(d, chunk, extra):
             path = os.path.join(dwbattery.DWDIR, "c18-%d.o" % os.getpid())
             nq, nr, bad = run_case(d, machine, etype, path)
             os.unlink(path)
+        elif kind == "archive":
+            nr, bad = archive_case(d, arg, os.path.join(dwbattery.DWDIR, "c18-%d" % os.getpid()))
+            nq = 1
         elif kind == "cross":
             paths = {}
             for m in arg:
@@ -227,6 +256,8 @@ def replay(case):
     d = drv.Drv(ctx.bin("zwdrv"), "full", timeout=120, cmd_timeout=60)
     try:
         arg = case["arg"]
+        if case["kind"] == "archive":
+            arg = tuple(arg)
         if case["kind"] == "gen":
             arg = (arg[0], arg[1])
         r = _worker(d, [(case["kind"], arg)], None)
@@ -241,6 +272,8 @@ def main(ctx):
     etypes = (1, 2, 3) if thorough else (1, 2)
     tasks = [[("gen", (m, t))] for m in MACHINES for t in etypes]
     tasks.append([("cross", ["EM_ARM", "EM_SPARC", "EM_PARISC", "EM_MIPS", "EM_X86_64"])])
+    sizes = (0, 2, 5)
+    tasks += [[("archive", list(c))] for n_ in (2, 3) for c in itertools.product(sizes, repeat=n_)]
     samples = [os.path.join("/repo/tests", n) for n in ("y.o", "y-mips.o", "float_const_value.o-armv7hl", "float_const_value.o-ppc64", "typedef.o", "bitcount.o", "twocus", "a1.out")]
     tasks += [[("sample", s)] for s in samples if os.path.exists(s)]
     for r in common.pmap(ctx, _worker, tasks, bins["zwdrv"], "full", timeout=300, cmd_timeout=120):
@@ -256,7 +289,7 @@ def main(ctx):
         "evaluations": n, "distinct_nontrivial": n,
         "rule": "state = one generated symbol table (1034 entries) for one (machine, ELF type); every field of every entry as reported by the engine is compared with the stored one; "
                 "renderings of codes that elf.h names are compared with elf.h; distinct = field values compared",
-        "bounds": {"machines": [str(m) for m in MACHINES], "elf_types": list(etypes), "symbols_per_file": len(sym_table()) + 10,
+        "bounds": {"machines": [str(m) for m in MACHINES], "elf_types": list(etypes), "symbols_per_file": len(sym_table()) + 10, "archives": "all ordered pairs and triples of members with 0/2/5 symbols",
                    "arch_specific_names": {k: {a: sorted(v.values()) for a, v in d_.items()} for k, d_ in arch.items()}},
     }
     return ctx.finish("model_checking", cov, [
